@@ -15,6 +15,7 @@ import (
 	"encoding/json"
 	"flag"
 	"fmt"
+	"go/ast"
 	"go/importer"
 	"go/token"
 	"go/types"
@@ -23,6 +24,7 @@ import (
 	"path"
 	"sort"
 	"strings"
+	"time"
 
 	"verif/harness/internal/gtypes"
 	"verif/harness/internal/hutil"
@@ -32,12 +34,14 @@ import (
 )
 
 type reqT struct {
-	Op   string `json:"op"`   // is, uis, sink, impl, hasm
-	Kind string `json:"kind"` // typepat, iqual, ifqn, funcref
-	Wrap string `json:"wrap"` // typepat only: "", "*", "[]"
+	Op   string `json:"op"`   // is, uis, sink, impl, hasm; conv, asgn
+	Kind string `json:"kind"` // typepat, iqual, ifqn, funcref; typeconstr
+	Wrap string `json:"wrap"` // typepat only: "", "*", "[]" (a prefix), or a shape with one `%s` where the name goes (positions.go)
 	Pkg  string `json:"pkg"`  // package name as written (or the path for ifqn)
 	Name string `json:"name"`
 	Meth string `json:"meth"`
+	// typepat: every qualified name of the type string in source order (the name above is one of them)
+	QNames [][2]string `json:"qnames,omitempty"`
 }
 
 // customT: a rule whose filter is a custom function using ctx.GetType / ctx.GetInterface with a fully-qualified name
@@ -72,6 +76,12 @@ type scenario struct {
 	// cannot be imported); the engine's parser never looks into packages (recorded finding), so this is kept apart
 	OUnknownTypeName string            `json:"o_unknown_type_name"`
 	OTarget          map[string]string `json:"o_target"` // oracle: rule id -> key of the resolved target
+	// Own: the file is loaded into engines of its own (Load and LoadFromIR) and, when it loads, run on its own probe functions
+	// only -- whatever happens there (a load that should have failed, a panic inside Run) is this file's doing
+	Own      bool   `json:"own,omitempty"`
+	Position string `json:"position,omitempty"` // positions.go: where the unresolvable name sits
+	OwnRun   string `json:"own_run,omitempty"`  // "" = not run / ran fine; else the panic message of Run
+	OwnRunIR string `json:"own_run_ir,omitempty"`
 }
 
 type worldEntry struct {
@@ -94,6 +104,9 @@ type out struct {
 	Scripts   []itabScript        `json:"scripts"`   // scripted histories of the import table itself
 	ItabNames []string            `json:"itab_names"`
 	ItabPaths []string            `json:"itab_paths"`
+	QProbes   []string            `json:"qprobes"`   // the typed probes of the position shapes
+	PosParse  *posParse           `json:"pos_parse"` // typematch.Parse alone on every composition of wrappers
+	FQNSweep  *fqnOut             `json:"fqn_sweep"` // FindType alone on fully-qualified names with dots everywhere
 	Error     string              `json:"error,omitempty"`
 }
 
@@ -108,6 +121,14 @@ var fakeDirs = map[string]string{
 	"example.com/c20/lib/io":       "fake/c20lib/io/io.go",
 	"example.com/c20/lib/foo":      "fake/c20lib/foo/foo.go",
 	"example.com/c20/lib/template": "fake/c20lib/template/template.go",
+	// import paths with dots in the last element (one of them a module of its own), in a middle element, twice in the last
+	// element; and the package a wrongly cut `.../api.v2.T` may end up in
+	"gopkg.in/yaml.v3":                 "fake/c20yaml/yaml.go",
+	"example.com/c20/lib/check.v1":     "fake/c20lib/check.v1/check.go",
+	"example.com/c20/lib/api.v2":       "fake/c20lib/api.v2/api.go",
+	"example.com/c20/lib/api":          "fake/c20lib/api/api.go",
+	"example.com/c20/lib/v1.2/plain":   "fake/c20lib/v1.2/plain/plain.go",
+	"example.com/c20/lib/multi.dot.v2": "fake/c20lib/multi.dot.v2/multi.go",
 }
 
 const vendoredLib = "example.com/c20app/vendor/example.com/c20/lib"
@@ -150,6 +171,13 @@ import (
 	lio "example.com/c20/lib/io"
 	ltemplate "example.com/c20/lib/template"
 
+	yaml3 "gopkg.in/yaml.v3"
+	chk1 "example.com/c20/lib/check.v1"
+	api2 "example.com/c20/lib/api.v2"
+	apid "example.com/c20/lib/api"
+	plain12 "example.com/c20/lib/v1.2/plain"
+	multi2 "example.com/c20/lib/multi.dot.v2"
+
 	gscanner "go/scanner"
 	mrand "math/rand"
 	rpprof "runtime/pprof"
@@ -170,6 +198,9 @@ var probeTypes = []string{
 	// the third packages named io / foo / template
 	"lio.Reader", "lio.Impl", "lio.Writer", "lfoo.T", "*lfoo.T", "lfoo.Impl", "lfoo.Iface", "ltemplate.Template", "*ltemplate.Template", "*htemplate.Template",
 	"*gscanner.Scanner",
+	// packages whose import paths have dots beyond the host name
+	"yaml3.Node", "*yaml3.Node", "yaml3.Impl", "chk1.C", "chk1.Impl", "api2.T", "api2.Impl", "apid.T", "apid.Impl", "plain12.T", "plain12.Impl",
+	"multi2.T", "multi2.Impl",
 }
 
 var nProbes = len(probeTypes)
@@ -181,6 +212,9 @@ var targetSrc = func() string {
 	for i, t := range probeTypes {
 		fmt.Fprintf(&b, "\tp%02d %s\n", i, t)
 	}
+	for _, q := range qprobes {
+		fmt.Fprintf(&b, "\t%s %s\n", q.Name, q.Type)
+	}
 	b.WriteString(")\n\n")
 	return b.String()
 }()
@@ -188,7 +222,9 @@ var targetSrc = func() string {
 // ---- menus
 
 var importMenu = []string{"example.com/io", "example.com/a/foo", "example.com/b/foo", "html/template", "example.com/c20/lib", "text/template", "math/rand", "text/scanner",
-	"example.com/c20/lib/io", "example.com/c20/lib/foo", "example.com/c20/lib/template", "go/scanner", "io"}
+	"example.com/c20/lib/io", "example.com/c20/lib/foo", "example.com/c20/lib/template", "go/scanner", "io",
+	// Import() binds the LAST PATH ELEMENT (irconv: path.Base): `plain`, `api` -- and `api.v2`, `yaml.v3`, which no `pkg.T` can spell
+	"example.com/c20/lib/v1.2/plain", "example.com/c20/lib/api", "example.com/c20/lib/api.v2", "gopkg.in/yaml.v3"}
 
 // families of importable packages with one base name: a group may bind the name several times (the last Import() wins inside
 // the group, and all of its bindings end with the group)
@@ -300,19 +336,28 @@ var typepatMenu = [][2]string{
 	{"io", "Reader"}, {"io", "Writer"}, {"io", "OnlyFake"}, {"foo", "T"}, {"foo", "OnlyA"}, {"foo", "Impl"}, {"template", "Template"},
 	{"lib", "T"}, {"lib", "Impl"}, {"nosuchpkg", "T"}, {"bytes", "Buffer"}, {"io", "Impl"}, {"io", "Reader"}, {"foo", "T"}, {"template", "Template"},
 	{"rand", "Rand"}, {"pprof", "Profile"}, {"scanner", "Scanner"},
+	{"plain", "T"}, {"api", "T"}, {"yaml", "Node"},
 }
 var ifaceQualMenu = [][2]string{
 	{"io", "Reader"}, {"io", "Writer"}, {"io", "StringWriter"}, {"foo", "Iface"}, {"lib", "Doer"}, {"nosuchpkg", "Iface"}, {"io", "NoSuchName"},
 	{"foo", "T"}, {"io", "Reader"}, {"foo", "Iface"}, {"io", "Writer"}, {"lib", "Doer"}, {"rand", "Source"},
+	{"plain", "Iface"}, {"api", "Handler"}, {"yaml", "Marshaler"},
 }
 var ifaceFqnMenu = [][2]string{
 	{"example.com/a/foo", "Iface"}, {"example.com/b/foo", "Iface"}, {"example.com/io", "Reader"}, {"example.com/c20/lib", "Doer"},
 	{"example.com/io", "Writer"}, {"example.com/nosuch/pkg", "I"},
+	// the package / object boundary of a fully-qualified name is its LAST dot, wherever else the path has dots
+	{"gopkg.in/yaml.v3", "Marshaler"}, {"example.com/c20/lib/check.v1", "Checker"}, {"example.com/c20/lib/api.v2", "Handler"},
+	{"example.com/c20/lib/api", "Handler"}, {"example.com/c20/lib/v1.2/plain", "Iface"}, {"example.com/c20/lib/multi.dot.v2", "Iface"},
+	{"gopkg.in/yaml.v3", "Marshaler"}, {"example.com/c20/lib/api.v2", "Handler"},
+	// unresolvable: not an interface; `gopkg.in/yaml.v3` read as a fully-qualified name (package gopkg.in/yaml, object v3)
+	{"gopkg.in/yaml.v3", "Node"}, {"gopkg.in/yaml", "v3"},
 }
 var funcrefMenu = [][3]string{
 	{"io", "Reader", "Read"}, {"io", "Reader", "ReadFake"}, {"foo", "Iface", "MA"}, {"foo", "Iface", "MB"}, {"io", "StringWriter", "WriteString"},
 	{"lib", "Doer", "Do"}, {"io", "Writer", "Write"}, {"nosuchpkg", "I", "M"}, {"foo", "T", "M"}, {"io", "Reader", "Read"}, {"foo", "Iface", "MA"},
 	{"rand", "Source", "Int63"},
+	{"plain", "Iface", "MP"}, {"api", "Handler", "HandlePlain"}, {"api", "Handler", "HandleV2"},
 }
 
 // entries that usually cannot be resolved are picked rarely, so that most files load
@@ -323,7 +368,7 @@ func genReq(r *rand.Rand) reqT {
 		switch r.Intn(10) {
 		case 0, 1, 2:
 			m := typepatMenu[r.Intn(len(typepatMenu))]
-			if rarely(r, m[0] == "nosuchpkg") {
+			if rarely(r, m[0] == "nosuchpkg" || m[0] == "yaml") {
 				continue
 			}
 			op := "is"
@@ -333,22 +378,26 @@ func genReq(r *rand.Rand) reqT {
 			case 1, 2:
 				op = "sink"
 			}
-			return reqT{Op: op, Kind: "typepat", Wrap: []string{"", "", "", "*", "[]"}[r.Intn(5)], Pkg: m[0], Name: m[1]}
+			wrap := []string{"", "", "", "*", "[]"}[r.Intn(5)]
+			if r.Intn(4) == 0 { // the name somewhere inside a composite type
+				wrap = posShapes[r.Intn(len(posShapes))]
+			}
+			return reqT{Op: op, Kind: "typepat", Wrap: wrap, Pkg: m[0], Name: m[1]}
 		case 3, 4, 5:
 			m := ifaceQualMenu[r.Intn(len(ifaceQualMenu))]
-			if rarely(r, m[0] == "nosuchpkg" || m[1] == "NoSuchName" || m[1] == "T" || m[1] == "Writer") {
+			if rarely(r, m[0] == "nosuchpkg" || m[1] == "NoSuchName" || m[1] == "T" || m[1] == "Writer" || m[0] == "yaml") {
 				continue
 			}
 			return reqT{Op: "impl", Kind: "iqual", Pkg: m[0], Name: m[1]}
 		case 6, 7:
 			m := ifaceFqnMenu[r.Intn(len(ifaceFqnMenu))]
-			if rarely(r, m[1] == "Writer" || m[1] == "I") {
+			if rarely(r, m[1] == "Writer" || m[1] == "I" || m[1] == "Node" || m[1] == "v3") {
 				continue
 			}
 			return reqT{Op: "impl", Kind: "ifqn", Pkg: m[0], Name: m[1]}
 		default:
 			m := funcrefMenu[r.Intn(len(funcrefMenu))]
-			if rarely(r, m[0] == "nosuchpkg" || m[1] == "T" || m[2] == "ReadFake" || m[2] == "MB" || m[2] == "Write") {
+			if rarely(r, m[0] == "nosuchpkg" || m[1] == "T" || m[2] == "ReadFake" || m[2] == "MB" || m[2] == "Write" || m[2] == "HandleV2") {
 				continue
 			}
 			return reqT{Op: "hasm", Kind: "funcref", Pkg: m[0], Name: m[1], Meth: m[2]}
@@ -359,11 +408,15 @@ func genReq(r *rand.Rand) reqT {
 func (q reqT) where() string {
 	switch q.Op {
 	case "is":
-		return fmt.Sprintf("m[\"x\"].Type.Is(`%s%s.%s`)", q.Wrap, q.Pkg, q.Name)
+		return fmt.Sprintf("m[\"x\"].Type.Is(`%s`)", q.patternOf())
 	case "uis":
-		return fmt.Sprintf("m[\"x\"].Type.Underlying().Is(`%s%s.%s`)", q.Wrap, q.Pkg, q.Name)
+		return fmt.Sprintf("m[\"x\"].Type.Underlying().Is(`%s`)", q.patternOf())
 	case "sink":
-		return fmt.Sprintf("m[\"$$\"].SinkType.Is(`%s%s.%s`)", q.Wrap, q.Pkg, q.Name)
+		return fmt.Sprintf("m[\"$$\"].SinkType.Is(`%s`)", q.patternOf())
+	case "conv":
+		return fmt.Sprintf("m[\"x\"].Type.ConvertibleTo(`%s`)", q.patternOf())
+	case "asgn":
+		return fmt.Sprintf("m[\"x\"].Type.AssignableTo(`%s`)", q.patternOf())
 	case "impl":
 		return fmt.Sprintf("m[\"x\"].Type.Implements(`%s.%s`)", q.Pkg, q.Name)
 	default:
@@ -461,6 +514,12 @@ type oracle struct {
 	u      *gtypes.Universe
 	std    types.Importer
 	probes []types.Type
+	// for the position shapes: the typed probes q000.., the target package, a position inside its file, and the alias the
+	// target file imports each package under
+	qtypes  []types.Type
+	tpkg    *types.Package
+	tpos    token.Pos
+	aliases map[string]string
 }
 
 func (o *oracle) pkg(p string) *types.Package {
@@ -509,7 +568,22 @@ var stdDefaults = func() map[string]string {
 // resolve returns the key of the resolved target or "" when the name cannot be resolved (load error expected)
 func (o *oracle) resolve(imports []string, q reqT) string {
 	switch q.Kind {
+	case "typeconstr":
+		// type constraints resolve no qualified names: one inside the type string is never resolvable
+		return ""
 	case "typepat":
+		if len(q.QNames) > 1 {
+			// every qualified name of the type string has to be bound
+			out := "ResTypes"
+			for _, qn := range q.QNames {
+				p, ok := docBinding(imports, qn[0])
+				if !ok {
+					return ""
+				}
+				out += " " + p + " " + qn[1]
+			}
+			return out
+		}
 		p, ok := docBinding(imports, q.Pkg)
 		if !ok {
 			return ""
@@ -564,6 +638,27 @@ func (o *oracle) resolve(imports []string, q reqT) string {
 func (o *oracle) satisfied(op, wrap, target string) []string {
 	f := strings.Fields(target)
 	var res []string
+	if isShape(wrap) {
+		// a composite type around the name(s): go/types evaluates the same type expression over the packages the names
+		// documentedly mean; the rule must report the probes of exactly that type
+		var paths, names []string
+		for i := 1; i+1 < len(f); i += 2 {
+			paths = append(paths, f[i])
+			names = append(names, f[i+1])
+		}
+		pattern := shapePattern(wrap, names)
+		want := o.evalShape(pattern, paths)
+		for _, qi := range probesForWrap(wrap) {
+			have := o.qtypes[qi]
+			if op == "uis" {
+				have = have.Underlying()
+			}
+			if want != nil && types.Identical(have, want) {
+				res = append(res, qprobes[qi].Name)
+			}
+		}
+		return res
+	}
 	for i, t := range o.probes {
 		ok := false
 		switch f[0] {
@@ -620,6 +715,8 @@ func main() {
 	seed := flag.Int64("seed", 1, "PRNG seed")
 	nscen := flag.Int("n", 60, "number of random scenarios")
 	nscripts := flag.Int("scripts", 300, "number of random import-table scripts")
+	timing := flag.Bool("timing", false, "print phase timings to stderr")
+	ntriples := flag.Int("triples", 40, "number of seeded depth-3 positions among the files that must not load")
 	writeBundle := flag.Bool("writebundle", false, "write harness/fake/c20bundle/rules.go (cwd = harness/) and exit")
 	flag.Parse()
 	o := out{Seed: *seed, Table: map[string][]string{}, Std: map[string]string{}}
@@ -630,6 +727,12 @@ func main() {
 		os.Exit(1)
 	}
 	r := rand.New(rand.NewSource(*seed))
+	t0 := time.Now()
+	lap := func(what string) {
+		if *timing {
+			fmt.Fprintf(os.Stderr, "c20 timing: %-28s %6.2fs\n", what, time.Since(t0).Seconds())
+		}
+	}
 
 	// ---- scenarios: hand-written first, then random
 	mk := func(groups ...groupT) scenario { return scenario{Groups: groups} }
@@ -749,6 +852,51 @@ func main() {
 	}
 	// groups that bind one base name two and three times (every order), before / after / between import-less groups
 	scs = append(scs, shadowScenarios()...)
+
+	// ---- import paths with dots beyond the host name. A fully-qualified name is cut at its LAST dot, so
+	// `gopkg.in/yaml.v3.Marshaler` is Marshaler of gopkg.in/yaml.v3; Import() binds the last path element (`yaml.v3`, `api.v2`:
+	// names no `pkg.T` can spell, so `yaml.T` / `api.T` stay unbound there)
+	yv3, chk1, api2, apid := "gopkg.in/yaml.v3", "example.com/c20/lib/check.v1", "example.com/c20/lib/api.v2", "example.com/c20/lib/api"
+	plain, multi := "example.com/c20/lib/v1.2/plain", "example.com/c20/lib/multi.dot.v2"
+	scs = append(scs,
+		mk(g(false, nil, ifq(yv3, "Marshaler"), ifq(chk1, "Checker"), ifq(api2, "Handler"), ifq(apid, "Handler"), ifq(plain, "Iface"), ifq(multi, "Iface"))),
+		mk(g(false, []string{apid, plain}, ifq(api2, "Handler"), iq("api", "Handler"), fr("api", "Handler", "HandlePlain"), tp("", "api", "T"),
+			fr("plain", "Iface", "MP"), iq("plain", "Iface"), tp("*", "plain", "T")),
+			g(false, nil, ifq(api2, "Handler"), ifq(yv3, "Marshaler"), ifq(plain, "Iface"))),
+		mk(g(false, []string{api2, apid}, tp("", "api", "T"), iq("api", "Handler")), g(false, []string{apid, api2}, tp("", "api", "T"), iq("api", "Handler"), ifq(api2, "Handler"))),
+		mk(g(false, []string{yv3}, ifq(yv3, "Marshaler")), g(false, []string{yv3}, tp("", "yaml", "Node"))),
+		mk(g(false, []string{yv3}, iq("yaml", "Marshaler"))),
+		mk(g(false, []string{api2}, ifq(api2, "Handler")), g(false, []string{api2}, tp("", "api", "T"))),
+		mk(g(false, []string{api2}, fr("api", "Handler", "HandleV2"))),
+		mk(g(false, nil, ifq("gopkg.in/yaml", "v3"))),
+		mk(g(false, nil, ifq(yv3, "Node"))),
+	)
+	dottedCustom := []customT{
+		{"GetInterface", yv3 + ".Marshaler", "ResIface " + yv3 + " Marshaler"}, {"GetType", yv3 + ".Node", "ResType " + yv3 + " Node"},
+		{"GetInterface", chk1 + ".Checker", "ResIface " + chk1 + " Checker"}, {"GetType", chk1 + ".C", "ResType " + chk1 + " C"},
+		{"GetInterface", api2 + ".Handler", "ResIface " + api2 + " Handler"}, {"GetType", api2 + ".T", "ResType " + api2 + " T"},
+		{"GetInterface", apid + ".Handler", "ResIface " + apid + " Handler"}, {"GetType", apid + ".T", "ResType " + apid + " T"},
+		{"GetInterface", plain + ".Iface", "ResIface " + plain + " Iface"}, {"GetType", plain + ".T", "ResType " + plain + " T"},
+		{"GetInterface", multi + ".Iface", "ResIface " + multi + " Iface"}, {"GetType", multi + ".T", "ResType " + multi + " T"},
+		// a vendored copy named in full is that copy (the file being checked depends on it)
+		{"GetType", vendoredLib + ".T", "ResType " + vendoredLib + " T"}, {"GetInterface", vendoredLib + ".Doer", "ResIface " + vendoredLib + " Doer"},
+	}
+	for k, cu := range dottedCustom {
+		// one lookup per file (a failing lookup panics inside Run); the group's imports bind the base name to something else
+		imps := [][]string{nil, {apid}, {yv3, api2}, {plain, "example.com/c20/lib"}}[k%4]
+		scs = append(scs, mk(cg(imps, cu)))
+	}
+	customMenu = append(customMenu, dottedCustom...)
+
+	// ---- a qualified name in every position of a type pattern
+	for k, sh := range posShapes {
+		scs = append(scs, posLoadScenario(sh, k))
+	}
+	o.PosParse = posParseSweep()
+	rpos := rand.New(rand.NewSource(*seed*7919 + 17))
+	for k, pf := range posFailShapes(rpos, *ntriples, func(sh string) bool { return o.PosParse.accepted[sh] }) {
+		scs = append(scs, posFailScenario(pf, k))
+	}
 	for i := 0; i < *nscen; i++ {
 		var sc scenario
 		withCustom := r.Intn(6) == 0
@@ -773,13 +921,14 @@ func main() {
 				q := genReq(r)
 				gr.Reqs = append(gr.Reqs, q)
 				// mostly give the group an Import() that binds the name (so that most files load)
-				if (q.Pkg == "foo" || q.Pkg == "lib") && r.Intn(6) != 0 {
+				if (q.Pkg == "foo" || q.Pkg == "lib" || q.Pkg == "plain" || q.Pkg == "api") && r.Intn(6) != 0 {
 					bound := false
 					for _, imp := range gr.Imports {
 						bound = bound || path.Base(imp) == q.Pkg
 					}
 					if !bound {
-						cands := map[string][]string{"foo": {"example.com/a/foo", "example.com/b/foo", "example.com/c20/lib/foo"}, "lib": {"example.com/c20/lib"}}[q.Pkg]
+						cands := map[string][]string{"foo": {"example.com/a/foo", "example.com/b/foo", "example.com/c20/lib/foo"}, "lib": {"example.com/c20/lib"},
+							"plain": {"example.com/c20/lib/v1.2/plain"}, "api": {"example.com/c20/lib/api"}}[q.Pkg]
 						gr.Imports = append(gr.Imports, cands[r.Intn(len(cands))])
 					}
 				}
@@ -790,6 +939,30 @@ func main() {
 		scs = append(scs, sc)
 	}
 
+	// ---- names; the qualified names of every type string
+	usedStd := map[string]bool{}
+	for si := range scs {
+		sc := &scs[si]
+		sc.ID = si
+		for gi := range sc.Groups {
+			gr := &sc.Groups[gi]
+			gr.Name = groupName(sc, si, gi)
+			for j := range gr.Reqs {
+				q := &gr.Reqs[j]
+				usedStd[q.Pkg] = true
+				if (q.Kind == "typepat" || q.Kind == "typeconstr") && isShape(q.Wrap) {
+					q.QNames = qualifiedNames(q.patternOf())
+					for _, qn := range q.QNames {
+						usedStd[qn[0]] = true
+					}
+				}
+			}
+			for _, cu := range gr.Custom {
+				sc.Own = sc.Own || isDottedFQN(cu.FQN)
+			}
+		}
+	}
+
 	// ---- target universe (in memory; the fake packages' sources are the files the engine's importer reads).
 	// One ruleguard run reports a node for the first matching rule only, so every rule gets its own probe function.
 	var tb strings.Builder
@@ -797,7 +970,7 @@ func main() {
 	bundleProbesDone := false
 	for si := range scs {
 		for gi, gr := range scs[si].Groups {
-			name := groupName(&scs[si], si, gi)
+			name := gr.Name
 			if gi < scs[si].Bundle {
 				if bundleProbesDone {
 					continue // the bundle's probe functions are shared by all files importing it (each runs in its own engine)
@@ -807,18 +980,29 @@ func main() {
 				}
 			}
 			for j, q := range gr.Reqs {
+				// the values a rule is asked about: p00.. ; for a name inside a composite type the typed probes of that shape
+				var vars, vtypes []string
+				if isShape(q.Wrap) {
+					for _, qi := range probesForWrap(q.Wrap) {
+						vars, vtypes = append(vars, qprobes[qi].Name), append(vtypes, qprobes[qi].Type)
+					}
+				} else {
+					for k := 0; k < nProbes; k++ {
+						vars, vtypes = append(vars, fmt.Sprintf("p%02d", k)), append(vtypes, probeTypes[k])
+					}
+				}
 				if q.Op == "sink" {
 					// the sink of the call is the declared type of the variable it initialises
 					fmt.Fprintf(&tb, "\nfunc probe_%s_r%d[T any](x T) T { return x }\n\nvar (\n", name, j)
-					for k := 0; k < nProbes; k++ {
-						fmt.Fprintf(&tb, "\t_ %s = probe_%s_r%d(p%02d)\n", probeTypes[k], name, j, k)
+					for k := range vars {
+						fmt.Fprintf(&tb, "\t_ %s = probe_%s_r%d(%s)\n", vtypes[k], name, j, vars[k])
 					}
 					tb.WriteString(")\n")
 					continue
 				}
 				fmt.Fprintf(&tb, "\nfunc probe_%s_r%d(interface{}) {}\nfunc use_%s_r%d() {\n", name, j, name, j)
-				for k := 0; k < nProbes; k++ {
-					fmt.Fprintf(&tb, "\tprobe_%s_r%d(p%02d)\n", name, j, k)
+				for k := range vars {
+					fmt.Fprintf(&tb, "\tprobe_%s_r%d(%s)\n", name, j, vars[k])
 				}
 				tb.WriteString("}\n")
 			}
@@ -832,7 +1016,8 @@ func main() {
 		}
 	}
 	fullTarget := tb.String()
-	srcs := map[string]string{"example.com/c20/target": fullTarget}
+	const targetPath = "example.com/c20/target"
+	srcs := map[string]string{targetPath: fullTarget}
 	for p, f := range fakeDirs {
 		b, err := os.ReadFile(f)
 		if err != nil {
@@ -849,72 +1034,41 @@ func main() {
 	if err != nil {
 		fail(err)
 	}
-	tpkg := u.Pkgs["example.com/c20/target"]
-	orc := &oracle{u: u, std: stdImp}
+	tpkg := u.Pkgs[targetPath]
+	tfile := u.Files[targetPath]
+	orc := &oracle{u: u, std: stdImp, tpkg: tpkg, tpos: tfile.Name.Pos(), aliases: map[string]string{}}
+	for _, imp := range tfile.Imports {
+		ip := strings.Trim(imp.Path.Value, "\"")
+		if imp.Name != nil {
+			orc.aliases[ip] = imp.Name.Name
+		} else {
+			orc.aliases[ip] = path.Base(ip)
+		}
+	}
 	for i := 0; i < nProbes; i++ {
 		name := fmt.Sprintf("p%02d", i)
 		orc.probes = append(orc.probes, tpkg.Scope().Lookup(name).Type())
 		o.Probes = append(o.Probes, name+" "+types.TypeString(orc.probes[i], nil))
 	}
+	for _, q := range qprobes {
+		orc.qtypes = append(orc.qtypes, tpkg.Scope().Lookup(q.Name).Type())
+		o.QProbes = append(o.QProbes, q.Name+" "+q.Type)
+	}
 
-	// ---- load everything into one engine
+	lap("universe")
+	// ---- per file: what the documented resolution says (the oracle, independent of the engine), then Load / LoadFromIR
 	fset := token.NewFileSet()
 	eng := ruleguard.NewEngine()
 	lctx := &ruleguard.LoadContext{Fset: fset, GroupFilter: func(gr *ruleguard.GoRuleGroup) bool { return !strings.Contains(gr.Name, "skip_") }}
 	engIR := ruleguard.NewEngine()
-	bundleEngines := map[int]*ruleguard.Engine{}
-	usedStd := map[string]bool{}
+	ownEngines := map[int]*ruleguard.Engine{} // bundle files and Own files
+	ownIR := map[int]*ruleguard.Engine{}
+	engFail, engFailIR := ruleguard.NewEngine(), ruleguard.NewEngine()
 	for si := range scs {
 		sc := &scs[si]
-		sc.ID = si
 		sc.Obs = map[string][]string{}
+		sc.ObsIR = map[string][]string{}
 		sc.OTarget = map[string]string{}
-		for gi := range sc.Groups {
-			gr := &sc.Groups[gi]
-			gr.Name = groupName(sc, si, gi)
-			for _, q := range gr.Reqs {
-				usedStd[q.Pkg] = true
-			}
-		}
-		sc.Rules = renderRules(sc)
-		loadInto := eng
-		if sc.Bundle > 0 {
-			// a file that imports the bundle gets an engine of its own (the bundle's rules would otherwise be loaded twice)
-			loadInto = ruleguard.NewEngine()
-			bundleEngines[si] = loadInto
-		}
-		func() {
-			defer func() {
-				if p := recover(); p != nil {
-					sc.LoadErr = fmt.Sprintf("PANIC: %v", p)
-				}
-			}()
-			if err := loadInto.Load(lctx, fmt.Sprintf("s%d.go", si), strings.NewReader(sc.Rules)); err != nil {
-				sc.LoadErr = err.Error()
-			}
-		}()
-		func() {
-			defer func() {
-				if p := recover(); p != nil {
-					sc.LoadErrIR = fmt.Sprintf("PANIC: %v", p)
-				}
-			}()
-			hasCustom := false
-			for _, gr := range sc.Groups {
-				hasCustom = hasCustom || len(gr.Custom) > 0
-			}
-			if hasCustom || sc.Bundle > 0 {
-				sc.LoadErrIR = "n/a" // custom filter functions are compiled by Load only; bundle files run in engines of their own
-				return
-			}
-			irf, err := ruleguard.VerifConvertAST(engIR, lctx, fmt.Sprintf("s%d.go", si), []byte(sc.Rules))
-			if err == nil {
-				err = engIR.LoadFromIR(lctx, fmt.Sprintf("s%d.go", si), irf)
-			}
-			if err != nil {
-				sc.LoadErrIR = err.Error()
-			}
-		}()
 		// oracle
 		for _, gr := range sc.Groups {
 			for j, cu := range gr.Custom {
@@ -934,11 +1088,13 @@ func main() {
 				}
 			}
 		}
+		shapeReq := false
 		for _, gr := range sc.Groups {
 			if gr.Skip {
 				continue
 			}
 			for j, q := range gr.Reqs {
+				shapeReq = shapeReq || isShape(q.Wrap)
 				tgt := orc.resolve(gr.Imports, q)
 				if tgt == "" {
 					sc.OFailed = true
@@ -946,15 +1102,17 @@ func main() {
 				}
 				if q.Kind == "typepat" && sc.OUnknownTypeName == "" {
 					f := strings.Fields(tgt)
-					pk := orc.pkg(f[1])
-					known := false
-					if pk != nil {
-						if obj := pk.Scope().Lookup(f[2]); obj != nil {
-							_, known = obj.(*types.TypeName)
+					for i := 1; i+1 < len(f); i += 2 {
+						pk := orc.pkg(f[i])
+						known := false
+						if pk != nil {
+							if obj := pk.Scope().Lookup(f[i+1]); obj != nil {
+								_, known = obj.(*types.TypeName)
+							}
 						}
-					}
-					if !known {
-						sc.OUnknownTypeName = fmt.Sprintf("%s_r%d %s.%s -> %s", gr.Name, j, q.Pkg, q.Name, f[1])
+						if !known && sc.OUnknownTypeName == "" {
+							sc.OUnknownTypeName = fmt.Sprintf("%s_r%d %s -> %s.%s", gr.Name, j, q.patternOf(), f[i], f[i+1])
+						}
 					}
 				}
 				sc.OTarget[fmt.Sprintf("%s_r%d", gr.Name, j)] = tgt
@@ -972,14 +1130,112 @@ func main() {
 		}
 		if sc.OFailed {
 			sc.OTarget = map[string]string{}
+			// a file that must not load and has a name inside a composite type: should it load after all, what it does to Run
+			// (a nil sub-pattern is dereferenced) must stay this file's doing
+			sc.Own = sc.Own || shapeReq
+		}
+
+		sc.Rules = renderRules(sc)
+		hasCustom := false
+		for _, gr := range sc.Groups {
+			hasCustom = hasCustom || len(gr.Custom) > 0
+		}
+		load := func(e *ruleguard.Engine) (msg string) {
+			defer func() {
+				if p := recover(); p != nil {
+					msg = fmt.Sprintf("PANIC: %v", p)
+				}
+			}()
+			if err := e.Load(lctx, fmt.Sprintf("s%d.go", si), strings.NewReader(sc.Rules)); err != nil {
+				return err.Error()
+			}
+			return ""
+		}
+		loadIR := func(e *ruleguard.Engine) (msg string) {
+			defer func() {
+				if p := recover(); p != nil {
+					msg = fmt.Sprintf("PANIC: %v", p)
+				}
+			}()
+			if hasCustom || sc.Bundle > 0 {
+				return "n/a" // custom filter functions are compiled by Load only; bundle files run in engines of their own
+			}
+			irf, err := ruleguard.VerifConvertAST(e, lctx, fmt.Sprintf("s%d.go", si), []byte(sc.Rules))
+			if err == nil {
+				err = e.LoadFromIR(lctx, fmt.Sprintf("s%d.go", si), irf)
+			}
+			if err != nil {
+				return err.Error()
+			}
+			return ""
+		}
+		switch {
+		case sc.Own && sc.OFailed:
+			// files that must not load share one pair of engines that is never run; one that loads after all is loaded again
+			// into engines of its own, which are then run on its own probe functions
+			sc.LoadErr, sc.LoadErrIR = load(engFail), loadIR(engFailIR)
+			if sc.LoadErr == "" {
+				ownEngines[si] = ruleguard.NewEngine()
+				sc.LoadErr = load(ownEngines[si])
+			}
+			if sc.LoadErrIR == "" {
+				ownIR[si] = ruleguard.NewEngine()
+				sc.LoadErrIR = loadIR(ownIR[si])
+			}
+		case sc.Bundle > 0 || sc.Own:
+			// a file that imports the bundle gets an engine of its own (the bundle's rules would otherwise be loaded twice)
+			ownEngines[si], ownIR[si] = ruleguard.NewEngine(), ruleguard.NewEngine()
+			sc.LoadErr, sc.LoadErrIR = load(ownEngines[si]), loadIR(ownIR[si])
+		default:
+			sc.LoadErr, sc.LoadErrIR = load(eng), loadIR(engIR)
 		}
 	}
 
+	lap("oracle + loads")
 	// ---- one run over the target
-	tfile := u.Files["example.com/c20/target"]
-	target := &hutil.Target{Fset: u.Fset, File: tfile, Info: u.Infos["example.com/c20/target"], Pkg: tpkg, Src: []byte(fullTarget), Path: "example.com/c20/target/src.go"}
-	collect := func(e *ruleguard.Engine, dst func(sc *scenario) map[string][]string, only int) string {
-		reports, pmsg := hutil.Run(e, target, 0, "", nil)
+	tinfo := u.Infos[targetPath]
+	target := &hutil.Target{Fset: u.Fset, File: tfile, Info: tinfo, Pkg: tpkg, Src: []byte(fullTarget), Path: targetPath + "/src.go"}
+	// the probe functions (and sink variables) of one file only
+	declOwner := func(d ast.Decl) string {
+		name := ""
+		switch d := d.(type) {
+		case *ast.FuncDecl:
+			name = d.Name.Name
+		case *ast.GenDecl:
+			if len(d.Specs) > 0 {
+				if vs, ok := d.Specs[0].(*ast.ValueSpec); ok && len(vs.Values) == 1 {
+					if call, ok := vs.Values[0].(*ast.CallExpr); ok {
+						if id, ok := call.Fun.(*ast.Ident); ok {
+							name = id.Name
+						}
+					}
+				}
+			}
+		}
+		name = strings.TrimPrefix(strings.TrimPrefix(name, "probe_"), "use_")
+		if i := strings.LastIndex(name, "_"); i > 0 {
+			return name[:i] // the group
+		}
+		return ""
+	}
+	subTarget := func(sc *scenario) *hutil.Target {
+		groups := map[string]bool{}
+		for _, gr := range sc.Groups {
+			groups[gr.Name] = true
+		}
+		f := *tfile
+		f.Decls = nil
+		for _, d := range tfile.Decls {
+			if groups[declOwner(d)] {
+				f.Decls = append(f.Decls, d)
+			}
+		}
+		t := *target
+		t.File = &f
+		return &t
+	}
+	collect := func(e *ruleguard.Engine, tgt *hutil.Target, dst func(sc *scenario) map[string][]string, only int) string {
+		reports, pmsg := hutil.Run(e, tgt, 0, "", nil)
 		byRule := map[string][]string{}
 		for _, rep := range reports {
 			f := strings.Fields(rep.Message)
@@ -989,7 +1245,7 @@ func main() {
 		}
 		for si := range scs {
 			sc := &scs[si]
-			if (only >= 0 && si != only) || (only < 0 && sc.Bundle > 0) {
+			if (only >= 0 && si != only) || (only < 0 && (sc.Bundle > 0 || sc.Own)) {
 				continue
 			}
 			for _, gr := range sc.Groups {
@@ -1010,27 +1266,39 @@ func main() {
 		}
 		return pmsg
 	}
-	o.RunPanic = collect(eng, func(sc *scenario) map[string][]string { return sc.Obs }, -1)
-	var bsis []int
-	for si := range bundleEngines {
-		bsis = append(bsis, si)
-	}
-	sort.Ints(bsis)
-	for _, si := range bsis {
-		if scs[si].LoadErr != "" {
-			continue
-		}
-		if p := collect(bundleEngines[si], func(sc *scenario) map[string][]string { return sc.Obs }, si); p != "" {
-			o.RunPanic += fmt.Sprintf(" | bundle engine of s%d.go: %s", si, p)
-		}
-	}
+	o.RunPanic = collect(eng, target, func(sc *scenario) map[string][]string { return sc.Obs }, -1)
+	lap("run: shared engine")
+	var osis []int
 	for si := range scs {
-		scs[si].ObsIR = map[string][]string{}
+		if ownEngines[si] != nil || ownIR[si] != nil {
+			osis = append(osis, si)
+		}
 	}
-	if p := collect(engIR, func(sc *scenario) map[string][]string { return sc.ObsIR }, -1); p != "" {
+	sort.Ints(osis)
+	for _, si := range osis {
+		sc := &scs[si]
+		if sc.LoadErr == "" && ownEngines[si] != nil {
+			// (an engine of its own is run on the probe functions of its file's groups only)
+			if p := collect(ownEngines[si], subTarget(sc), func(sc *scenario) map[string][]string { return sc.Obs }, si); p != "" {
+				if sc.Own {
+					sc.OwnRun = "PANIC: " + p
+				} else {
+					o.RunPanic += fmt.Sprintf(" | bundle engine of s%d.go: %s", si, p)
+				}
+			}
+		}
+		if sc.Own && sc.LoadErrIR == "" && ownIR[si] != nil {
+			if p := collect(ownIR[si], subTarget(sc), func(sc *scenario) map[string][]string { return sc.ObsIR }, si); p != "" {
+				sc.OwnRunIR = "PANIC: " + p
+			}
+		}
+	}
+	lap("run: own engines")
+	if p := collect(engIR, target, func(sc *scenario) map[string][]string { return sc.ObsIR }, -1); p != "" {
 		o.RunPanic += " | IR engine: " + p
 	}
 	o.Scenarios = scs
+	lap("runs")
 
 	// ---- the world the model needs: every (package, name) of the menus, as go/types sees it
 	seen := map[string]bool{}
@@ -1102,6 +1370,11 @@ func main() {
 		fail(err)
 	}
 	o.StdSweep = so
+	lap("std sweep")
+	if o.FQNSweep, err = fqnSweep(*seed); err != nil {
+		fail(err)
+	}
+	lap("fqn sweep")
 	o.StdTable = stdDefaults
 	o.Scripts, o.ItabNames, o.ItabPaths = itabScripts(*seed, *nscripts), itabNames, itabPaths
 	enc.Encode(o)
